@@ -1113,6 +1113,14 @@ class SSInterp:
                     return ('pair', ('sit', 'POS'), ('bool', False))
                 self.actions.append('sadd')
                 return ('pair', ('sit', 'NEW'), ('bool', True))
+            if sn in ('insert', 'emplace_hint') and len(args) == 2 and self.ev(args[1], fr) == ('key',):
+                self.ev(args[0], fr)
+                if self.small():
+                    raise _LViolation('the key is inserted into the set while the elements live in the inline vector (the set must stay empty until grow())')
+                if self.present:
+                    return ('sit', 'POS')
+                self.actions.append('sadd')
+                return ('sit', 'NEW')
             if sn == 'insert' and len(args) == 2:
                 b, e = self.ev(args[0], fr), self.ev(args[1], fr)
                 if b == ('vit', 'VBEG') and e == ('vit', 'VEND') and not self.added:
@@ -1192,9 +1200,12 @@ def ss_case(progs):
         for f in prog.amc_functions():
             nm = short(f['name'])
             ps = f.get('params', [])
-            if f.get('body') is None or f.get('clsq') != SS or nm not in ('insert', 'emplace', 'find', 'contains', 'count', 'erase') or len(ps) != 1 or f.get('access') != 'public':
+            if f.get('body') is None or f.get('clsq') != SS or nm not in ('insert', 'emplace', 'emplace_hint', 'find', 'contains', 'count', 'erase') or f.get('access') != 'public':
                 continue
-            t = ps[0]['t']
+            hinted = len(ps) == 2 and nm in ('insert', 'emplace_hint') and not ps[0]['t'].rstrip().endswith('&') and ps[0]['t'] != ps[1]['t']
+            if len(ps) != 1 and not hinted:
+                continue
+            t = ps[-1]['t']
             if 'initializer_list' in t or 'node' in t.lower() or 'Iterator' in t or (nm == 'erase' and not t.rstrip().endswith('&')) or t.replace('const ', '').strip().endswith('*'):
                 continue
             bad, verdicts = None, {}
@@ -1203,10 +1214,12 @@ def ss_case(progs):
                     ip = SSInterp(prog, state, present)
                     try:
                         try:
-                            ip.run(f['body'], {('p', 0): ('key',)})
+                            ip.run(f['body'], {('p', 1): ('key',), ('p', 0): ('hint',)} if hinted else {('p', 0): ('key',)})
                             res = LTOP
                         except _LRet as r:
                             res = r.v
+                        if hinted and res[0] in ('vit', 'sit'):
+                            res = ('pair', res, ('bool', not present))          # the hinted forms return the position only
                     except _LUnknown as e:
                         rr.broken = rr.broken or 'SS-CASE: cannot interpret %s: %s' % (f['pname'][:100], e)
                         verdicts = None
@@ -1216,7 +1229,7 @@ def ss_case(progs):
                         break
                     small = state != 'LARGE'
                     acts = ip.actions
-                    if nm in ('insert', 'emplace'):
+                    if nm in ('insert', 'emplace', 'emplace_hint'):
                         want = [] if present else (['vadd'] if state == 'SMALL' else ['transfer', 'vclear', 'sadd'] if state == 'FULL' else ['sadd'])
                         wres = ('pair', ('vit' if small else 'sit', 'POS'), ('bool', False)) if present else \
                             ('pair', ('vit', 'VEND') if state == 'SMALL' else ('sit', 'NEW'), ('bool', True))
@@ -1232,7 +1245,7 @@ def ss_case(progs):
                         okres = res[0] in ('bool', 'int') and int(res[1]) == (1 if present else 0)
                     verdicts['%s/%s' % (state, 'present' if present else 'absent')] = '%s -> %s' % (acts, res)
                     if acts != want or not okres:
-                        exp_res = _ss_show(wres) if nm in ('insert', 'emplace') else ('the equivalent element, or the end of the active container' if nm == 'find' else ('1' if present else '0'))
+                        exp_res = _ss_show(wres) if nm in ('insert', 'emplace', 'emplace_hint') else ('the equivalent element, or the end of the active container' if nm == 'find' else ('1' if present else '0'))
                         bad = (state, present, 'it performs %s and returns %s; std::set semantics: %s, returning %s' % (acts or 'no modification', _ss_show(res), want or 'no modification', exp_res))
                         break
                 if bad or verdicts is None:
